@@ -19,8 +19,16 @@ Image(r) == IsConstitutionIso(r.f, r.g, r.h) /\ ParityPreserved(r.g, r.h, r.f) /
 Respelling(r) == r.act \in {"respell-random", "respell-canonical-mapped", "respell-aromatic-bonds", "respell-kekule",
                             "respell-rdkit-random", "respell-rdkit-canonical", "respell-rdkit-kekule",
                             "canonicalized-copy"}     \* canonicalize() rewrites non-canonical functional groups: then it is no image (counted)
+\* the other toolkit's spellings of the molecule are valid spellings of it by the language definition; when the library reads one of
+\* them as the same constitution with the same double-bond configuration but another configuration of a carbon centre, two valid
+\* spellings of one structure got different identities (reader and writer share their sign translation, so C02 cannot see this)
+ToolkitRespelling(r) == r.act \in {"respell-rdkit-random", "respell-rdkit-canonical", "respell-rdkit-kekule"}
+Mismatch(r) == { k \in Nodes(r.g) : r.h.atoms[r.f[k]].p # (IF r.g.atoms[k].p = 2 THEN 2 ELSE ImageParity(r.g, r.f, k)) }
+CarbonCentreRead(r) == /\ ToolkitRespelling(r) /\ IsConstitutionIso(r.f, r.g, r.h) /\ CtPreserved(r.g, r.h, r.f) /\ InDomainC01(r.g)
+                       /\ Mismatch(r) # {} /\ \A k \in Mismatch(r) : r.g.atoms[k].z = 6 /\ r.g.atoms[k].p # 2 /\ r.h.atoms[r.f[k]].p # 2
 SameVerdict(r) ==
-  IF ~Image(r) THEN (IF Respelling(r) THEN {} ELSE {"harness-variant-is-not-an-image:" \o r.act})   \* the driver claimed a preservation that is not one
+  IF ~Image(r) THEN (IF CarbonCentreRead(r) THEN {"another-toolkit-s-spelling-read-as-another-configuration"}
+                     ELSE IF Respelling(r) THEN {} ELSE {"harness-variant-is-not-an-image:" \o r.act})   \* the driver claimed a preservation that is not one
   ELSE IF ~InDomainC01(r.g) THEN If((r.sg = r.sh) # (r.eq = 1), "eq-iff-same-string")
   ELSE If(r.sg # r.sh, "string-differs:" \o r.act) \cup If(r.eq # 1, "not-equal:" \o r.act) \cup If(r.heq # 1, "hash-differs:" \o r.act)
 \* a changed attribute multiset makes the molecules non-isomorphic whatever the numbering
